@@ -240,6 +240,33 @@ theorem select_lkm :
   refine ⟨by rfl, fun m => by simp [specLkm], ?_⟩
   decide
 
+/-- **C22-kernel-module.** The classification the kernel-module filter depends on: the code treats an
+input as a Linux kernel module exactly if it is a relocatable object with BOTH marker sections — for
+every ELF type and every set of section names (the marker names and the conjunction are regenerated
+from `runtime_memory_image.rs`). In particular an object with only one of the two sections, an
+executable or a shared object gets the default selection. -/
+theorem kernelModule_classification (etype : String) (sections : List String) :
+    isKernelModule etype sections = specIsKernelModule etype sections := by
+  have h : lkmMarkerSections = [".modinfo", ".gnu.linkonce.this_module"] := by decide
+  simp [isKernelModule, specIsKernelModule, h, Bool.and_assoc]
+
+theorem not_kernelModule_of_missing_marker (etype : String) (sections : List String)
+    (h : ".modinfo" ∉ sections ∨ ".gnu.linkonce.this_module" ∉ sections) :
+    isKernelModule etype sections = false := by
+  rw [kernelModule_classification]
+  simp only [specIsKernelModule]
+  rcases h with h | h <;> simp [h]
+
+/-- **C22-run.** The selection of a whole run as a function of the input file and the command line:
+default selection unless the file is a kernel module (both markers) or `--partial` is given. -/
+theorem select_of_input (etype : String) (sections : List String) :
+    selectReal none (isKernelModule etype sections) =
+      if specIsKernelModule etype sections then .ok (specLkm allModules modulesLkm) else .ok (specDefault allModules) := by
+  rw [kernelModule_classification]
+  cases specIsKernelModule etype sections
+  · exact select_default.1
+  · exact select_lkm.1
+
 /-- **C22-partial-real.** `partialSelect_exact` for the real table. -/
 theorem select_partial (param : String) (sel : List Module) (h : selectReal (some param) false = .ok sel) :
     (∀ m, m ∈ sel ↔ m ∈ allModules ∧ m.name ∈ param.splitOn ",") ∧ sel.Nodup :=
@@ -321,6 +348,9 @@ theorem real_labels_unambiguous :
 example : (pickModules allModules (dedup ["CWE676", "", "CWE78", "CWE676"])).toOption.map (·.map (·.name)) = some ["CWE78", "CWE676"] := by
   rfl
 example : pickModules allModules (dedup ["CWE676", "CWE7"]) = .error "CWE7" := by rfl
+example : isKernelModule "rel" [".text", ".modinfo", ".gnu.linkonce.this_module"] = true ∧
+    isKernelModule "rel" [".text", ".modinfo"] = false ∧ isKernelModule "rel" [".gnu.linkonce.this_module"] = false ∧
+    isKernelModule "dyn" [".modinfo", ".gnu.linkonce.this_module"] = false := by decide
 example : (specDefault allModules).length + 1 = allModules.length := by decide
 example : 0 < (specLkm allModules modulesLkm).length ∧ (specLkm allModules modulesLkm).length ≤ modulesLkm.length := by decide
 example : expectedLabels [⟨"Memory", "0.2"⟩] [("CWE476", "0.2"), ("CWE476", "0.3"), ("CWE415", "0.3")] = [("CWE476", "0.2")] := by
